@@ -271,8 +271,8 @@ Proof.
         destruct (present g' x && present g' KRoot && Base.eqb a x && Base.eqb b KRoot); [discriminate|].
         apply Hm. exact N. }
     destruct k as [|ft|n t s|t s|t s]; try (split; [exact W'|split; [exact Hv|split; [exact He|exact Hm]]]).
-    + destruct (match fin with Some f => flt_ok u f t | None => true end); [apply St|].
+    + destruct (match fin with Some f => flt_okv u f n t s | None => true end); [apply St|].
       split; [exact W'|split; [exact Hv|split; [exact He|exact Hm]]].
-    + destruct (match fin with Some f => flt_ok u f t | None => true end); [apply St|].
+    + destruct (match fin with Some f => flt_okv u f EmptyString t s | None => true end); [apply St|].
       split; [exact W'|split; [exact Hv|split; [exact He|exact Hm]]].
 Qed.
